@@ -12,7 +12,7 @@ def make_project(nfiles=1, nmod=1, nprog=1, nproc=1, ntype=1, nabs=0, nblock=0, 
         for t in range(1, ntype + 1):
             ext = f", extends(ty{t - 1})" if t > 1 else ""
             L += [f"type{ext} :: ty{t}", f"  !! doc of type ty{t}" + (f" see [[ty{t - 1}]]" if t > 1 and links and in_module else ""),
-                  f"  integer :: comp{t}", f"  !! component {t}", "contains", f"  procedure :: bound{t}", f"  !! binding {t}", "  !!", f"  !! second paragraph of binding {t}",
+                  f"  integer :: comp{t}", f"  !! component {t}", "contains", f"  procedure :: bound{t}", f"  !! binding {t}" + (f", implemented by [[bound{t}]]" if links and in_module else ""), "  !!", f"  !! second paragraph of binding {t}",
                   f"  generic :: gbound{t} => bound{t}", f"  !! generic binding {t}", "  !!", f"  !! second paragraph of generic binding {t}"]
             if in_module:
                 # a finaliser that is private to the module (it has no page of its own unless private entities are displayed)
